@@ -238,6 +238,42 @@ def bloch_redfield(rng, tier, rep):
             raise
         except Exception as e:
             viol.append(("br-raises:reference", f"{type(e).__name__}: {e}"[:200]))
+        # the same spectrum in other written forms: sampled on a frequency grid (a coefficient built from arrays), a string,
+        # a Coefficient of w; and the tensor as a function of time for a time-dependent coupling with arguments
+        try:
+            with core.time_limit(120):
+                from qutip.core.blochredfield import SpectraCoefficient
+                smooth = lambda w: 0.2 + 0.1 * np.tanh(w)        # noqa: E731
+                wgrid = np.linspace(-12, 12, 2401)
+                forms = {"function": smooth, "sampled on a frequency grid": qutip.coefficient(smooth(wgrid), tlist=wgrid, order=3),
+                         "string": "0.2 + 0.1 * tanh(w)", "SpectraCoefficient of a sampled coefficient": SpectraCoefficient(qutip.coefficient(smooth(wgrid), tlist=wgrid, order=3))}
+                ref_form = None
+                for nm_, sp_ in forms.items():
+                    Rf = qutip.bloch_redfield_tensor(H, [[a, sp_]], fock_basis=True, sec_cutoff=-1).full()
+                    rep.evaluations += 1
+                    rep.count("br-spectrum-form")
+                    if ref_form is None:
+                        ref_form = Rf
+                    elif np.abs(Rf - ref_form).max() > 1e-6 * (1 + np.abs(ref_form).max()):
+                        viol.append(("br-spectrum-form", f"bloch_redfield_tensor with the spectrum given as {nm_} differs from the one with the same spectrum given as a function by {np.abs(Rf - ref_form).max():.2e}"))
+                    T1 = qutip.brterm(H, a, sp_, fock_basis=True, sec_cutoff=-1)
+                    T1 = (T1[0] if isinstance(T1, tuple) else T1).full()
+                    if np.abs(T1 + qutip.liouvillian(H).full() * 0 - (ref_form - qutip.liouvillian(H).full())).max() > 1e-6 * (1 + np.abs(ref_form).max()):
+                        viol.append(("br-spectrum-form:brterm", f"brterm with the spectrum given as {nm_} is not the Bloch-Redfield tensor minus the unitary part"))
+                # time-dependent coupling operator with an argument, constant Hamiltonian
+                at = qutip.QobjEvo([[a, lambda t, g: g * (1.0 + 0.5 * t)]], args={"g": 1.0})
+                Rt = qutip.bloch_redfield_tensor(H, [[at, smooth]], fock_basis=True, sec_cutoff=-1)
+                for g_, t_ in ((1.0, 0.0), (0.5, 0.4), (2.0, 0.4), (1.0, 0.4)):
+                    want_t = qutip.bloch_redfield_tensor(H, [[a * (g_ * (1.0 + 0.5 * t_)), smooth]], fock_basis=True, sec_cutoff=-1).full()
+                    for how, got_t in (("call-time arguments", Rt(t_, g=g_)), ("a copy with new arguments", qutip.QobjEvo(Rt, args={"g": g_})(t_))):
+                        rep.evaluations += 1
+                        rep.count("br-td-args")
+                        if np.abs(got_t.full() - want_t).max() > 1e-7 * (1 + np.abs(want_t).max()):
+                            viol.append(("br-td-args", f"Bloch-Redfield tensor of a time-dependent coupling evaluated at t={t_} with g={g_} ({how}) differs from the tensor of the coupling operator at that time by {np.abs(got_t.full() - want_t).max():.2e}"))
+        except core.CaseTimeout:
+            raise
+        except Exception as e:
+            viol.append(("br-raises:forms", f"{type(e).__name__}: {e}"[:200]))
         for meth, fock in itertools.product(("sparse", "dense", "matrix"), (True, False)):
             try:
                 with core.time_limit(60):
